@@ -279,6 +279,116 @@ fn compress_case(rep: &Report, idx: usize, seed: u64) -> Option<String> {
     res.err()
 }
 
+/// Clones that FAIL late (after the output has been opened / written): wrong source
+/// checksum with --verify-output, a corrupted chunk payload, a truncated archive. The
+/// rule is the same: nothing but the output is written, nothing is removed or renamed.
+fn failing_clone_case(rep: &Report, idx: usize, seed: u64) -> Option<String> {
+    use crate::refimpl::chunker::Cfg;
+    use crate::refimpl::enc::{self, ArchiveSpec};
+    let mut rng = Rng::new(seed).fork(0x16f0 + idx as u64);
+    let dir = scn::case_dir("C16", 80_000 + idx);
+    let res = (|| -> Result<(), String> {
+        let n = rng.urange(64, 600);
+        let src_len = rng.urange(n * 3, n * 20);
+        let source = gen::gen_source(&mut rng, gen::SrcClass::BlockRepetitive, src_len);
+        let comp = *rng.pick(&[(0u32, 0u32), (3, 3), (2, 2)]);
+        let spec = ArchiveSpec::plain(Cfg::fixed(n), 64, comp);
+        let e = enc::encode_archive(&source, &spec).map_err(|x| format!("harness: {}", x));
+        let Ok(e) = e else {
+            rep.inconclusive("encoder");
+            return Ok(());
+        };
+        let body = e.bytes[e.chunk_data_offset as usize..].to_vec();
+        let kind = idx % 3;
+        let (bytes, what, verify) = match kind {
+            0 => {
+                let mut d = e.dict.clone();
+                let k = rng.usize_below(d.source_checksum.len());
+                d.source_checksum[k] ^= 1 << rng.below(8);
+                (enc::assemble(&d, &spec.style, None, &body), "wrong source checksum + --verify-output", true)
+            }
+            1 => {
+                let mut b = body.clone();
+                let k = b.len() - 1 - rng.usize_below(b.len() / 3 + 1);
+                b[k] ^= 0x40;
+                (enc::assemble(&e.dict, &spec.style, None, &b), "corrupt chunk near the end", rng.chance(1, 2))
+            }
+            _ => {
+                let cut = body.len() - rng.urange(1, body.len() / 2);
+                (enc::assemble(&e.dict, &spec.style, None, &body[..cut]), "archive truncated in the chunk data", rng.chance(1, 2))
+            }
+        };
+        let apath = dir.join("bad.cba");
+        std::fs::write(&apath, &bytes).unwrap();
+        let odir = dir.join("outdir");
+        std::fs::create_dir_all(&odir).unwrap();
+        let out = odir.join("out.bin");
+        let mode = (idx / 3) % 3; // 0 new, 1 --seed-output on existing, 2 -f on existing
+        if mode > 0 {
+            std::fs::write(&out, gen::apply_edit(&mut rng, &source, gen::Edit::Swap)).unwrap();
+        }
+        let before_out = listing(&odir);
+        let http = idx % 2 == 1;
+        let server = if http { Some(Server::start(Arc::new(bytes.clone()), httpd::well_behaved())) } else { None };
+        let cs = scn::CloneSpec {
+            archive: server.as_ref().map(|x| x.url()).unwrap_or_else(|| p(&apath)),
+            output: out.clone(),
+            seed_output: mode == 1,
+            force: mode == 2,
+            verify_output: verify,
+            ..Default::default()
+        };
+        let trace = dir.join("strace.out");
+        let mut run = Run::new(&dir, "clone", scn::clone_args(&cs));
+        run.use_shim = false;
+        run.wrapper = strace_wrapper(&trace);
+        let o = proc::run(&run);
+        drop(server);
+        rep.eval();
+        if o.exit == Exit::Timeout {
+            rep.inconclusive("watchdog");
+            return Ok(());
+        }
+        if o.exit.ok() {
+            // e.g. the corrupted byte was in a chunk a seed supplied; nothing to judge here
+            rep.count("failing_clone.cases_that_succeeded", 1);
+        }
+        let Ok(text) = std::fs::read_to_string(&trace) else {
+            rep.inconclusive("strace produced no output");
+            return Ok(());
+        };
+        let _ = std::fs::remove_file(&trace);
+        let act = analyse(&parse_strace(&text));
+        if act.all_opens.is_empty() {
+            rep.inconclusive("strace saw no file opens");
+            return Ok(());
+        }
+        let out_s = p(&out);
+        for (path, flags) in &act.write_opens {
+            if *path != out_s {
+                return Err(format!("failing clone ({}) opened {} with {}", what, path, flags));
+            }
+        }
+        if let Some((name, args)) = act.namespace.first() {
+            return Err(format!("failing clone ({}) performed {}({}) — nothing may be removed or renamed", what, name, args.chars().take(100).collect::<String>()));
+        }
+        let after_out = listing(&odir);
+        if mode > 0 && after_out != before_out {
+            return Err(format!("failing clone ({}) changed the output directory: {:?} -> {:?}", what, before_out, after_out));
+        }
+        if after_out.iter().any(|f| f != "out.bin") {
+            return Err(format!("failing clone ({}) left {:?} in the output directory", what, after_out));
+        }
+        if !o.exit.ok() {
+            rep.count("failing_clone.cases_judged", 1);
+            rep.nontrivial(format!("failclone:{}:{}:{}#{}", what, mode, http, idx));
+        }
+        Ok(())
+    })();
+    scn::cleanup(&dir, res.is_err());
+    res.err()
+}
+
 pub fn run(tier: Tier, seed: u64) -> i32 {
     let rep = Report::new("C16", "exploration", tier, seed);
     // Self-test of the analyser on a synthetic trace.
@@ -309,6 +419,18 @@ pub fn run(tier: Tier, seed: u64) -> i32 {
                 &format!("c16/clone/{}/{}", sc.out_kind.name(), class.trim()),
                 json!({"why": why, "scenario": sc.to_json(), "work_dir": format!("/verif/.work/C16/c{}", i)}),
                 json!({"engine": "clone", "scenario": sc.to_json()}),
+            );
+        }
+    }
+    let nf = tier.pick(54, 540);
+    let res = par_map(nf, crate::util::ncpu(), |i| (i, failing_clone_case(&rep, i, seed)));
+    for (i, r) in res {
+        if let Some(why) = r {
+            let class: String = why.split(['/', '{']).next().unwrap_or("").split(" opened ").next().unwrap_or("").chars().take(90).collect();
+            rep.violation(
+                &format!("c16/failing-clone/{}", class.trim()),
+                json!({"why": why, "work_dir": format!("/verif/.work/C16/c{}", 80_000 + i)}),
+                json!({"engine": "failing_clone", "idx": i, "seed": seed}),
             );
         }
     }
@@ -344,6 +466,8 @@ pub fn replay(v: &Value) -> i32 {
     rep.replay_mode = true;
     let res = if r["engine"] == "clone" {
         clone_case(&rep, 900_000, &Scenario::from_json(&r["scenario"]), false)
+    } else if r["engine"] == "failing_clone" {
+        failing_clone_case(&rep, r["idx"].as_u64().unwrap_or(0) as usize, r["seed"].as_u64().unwrap_or(1))
     } else {
         compress_case(&rep, r["idx"].as_u64().unwrap_or(0) as usize, r["seed"].as_u64().unwrap_or(1))
     };
